@@ -884,6 +884,8 @@ static inline int myth_thread_attr_init_body(myth_thread_attr_t * attr) {
   attr->detachstate = 0;
   myth_globalattr_get_guardsize_body(0, &attr->guardsize);
   myth_globalattr_get_child_first_body(0, &attr->child_first);
+  attr->custom_data_size = 0;
+  attr->custom_data = 0;
   return 0;
 }
 
